@@ -177,6 +177,23 @@ class Resolver:
         self.file_aliases = {}
         for rel in repo.src:
             self.file_aliases[rel] = self._parse_imports(rel)
+        # module-level dispatch tables: NAME = {key: function, ...} / (f, g, ...) / [f, g]
+        self.function_tables = {}
+        for rel, tree in repo.tree.items():
+            for st in tree.body:
+                if isinstance(st, ast.Assign) and len(st.targets) == 1 and isinstance(st.targets[0], ast.Name):
+                    vals = st.value.values if isinstance(st.value, ast.Dict) else st.value.elts if isinstance(st.value, (ast.Tuple, ast.List)) else None
+                    if not vals:
+                        continue
+                    targets = []
+                    for v in vals:
+                        for leaf in (v.elts if isinstance(v, (ast.Tuple, ast.List)) else [v]):
+                            d = dotted(leaf) if isinstance(leaf, (ast.Name, ast.Attribute)) else None
+                            t = self.resolve(rel, d, None) if d else None
+                            if t and t[0] == "func":
+                                targets.append((t[1], t[2]))
+                    if targets:
+                        self.function_tables[(rel, st.targets[0].id)] = targets
 
     def _mod_file(self, modname):
         # 'circuitgraph.io' -> io.py
@@ -358,6 +375,32 @@ class FuncAnalysis:
         self.s = Summary(fi)
         self.params = self.s.params
         self.ret_av = None
+        self.fn_vars = {}  # local name -> [(file, qual)] of the repository functions it may denote
+
+    def function_targets(self, node):
+        """Repository functions an expression may denote: a function name, TABLE[key], TABLE.get(key[, default])."""
+        tabs = self.an.res.function_tables
+        if isinstance(node, ast.Name):
+            if node.id in self.fn_vars:
+                return self.fn_vars[node.id]
+            t = self.an.res.resolve(self.rel, node.id, self.fi)
+            if t and t[0] == "func" and node.id not in self.env:
+                return [(t[1], t[2])]
+            return None
+        if isinstance(node, ast.Subscript) and isinstance(node.value, ast.Name) and (self.rel, node.value.id) in tabs:
+            return tabs[(self.rel, node.value.id)]
+        if isinstance(node, ast.Call) and isinstance(node.func, ast.Attribute) and node.func.attr == "get" and isinstance(node.func.value, ast.Name) and (self.rel, node.func.value.id) in tabs:
+            out = list(tabs[(self.rel, node.func.value.id)])
+            if len(node.args) > 1:
+                extra = self.function_targets(node.args[1])
+                if extra:
+                    out += extra
+            return out
+        if isinstance(node, ast.IfExp):
+            a, b = self.function_targets(node.body), self.function_targets(node.orelse)
+            if a and b:
+                return a + b
+        return None
 
     # ------------------------------------------------------------------
     def analyze(self):
@@ -524,6 +567,10 @@ class FuncAnalysis:
             self.bind(target.value, av)
 
     def st_Assign(self, st):
+        if len(st.targets) == 1 and isinstance(st.targets[0], ast.Name):
+            ft = self.function_targets(st.value)
+            if ft:
+                self.fn_vars[st.targets[0].id] = ft
         if len(st.targets) == 1 and isinstance(st.targets[0], (ast.Tuple, ast.List)) and isinstance(st.value, (ast.Tuple, ast.List)) and len(st.targets[0].elts) == len(st.value.elts):
             vals = [self.ev(v) for v in st.value.elts]
             for te, v in zip(st.targets[0].elts, vals):
@@ -793,6 +840,14 @@ class FuncAnalysis:
                 return self.construct(n, target, argav, kwav)
             recv = self.ev(f.value)
             return self.call_method(n, recv, f.attr, argav, kwav)
+        ft = self.function_targets(f) if isinstance(f, (ast.Subscript, ast.Call)) or (isinstance(f, ast.Name) and f.id in self.fn_vars) else None
+        if ft:
+            self.an.resolved_sites += 1
+            out = None
+            for key in ft:
+                av = self.apply_summary(n, self.an.summ[key], argav, kwav, None)
+                out = av if out is None else out.join(av)
+            return out
         if isinstance(f, ast.Name):
             target = self.an.res.resolve(self.rel, f.id, self.fi)
             if target and target[0] == "func":
